@@ -15,6 +15,7 @@ package main
 
 import (
 	"fmt"
+	"go/constant"
 	"go/token"
 	"go/types"
 
@@ -288,6 +289,63 @@ func elseIfOrderRule(r *Run, rule string) {
 					if touches {
 						bad, badPos = fmt.Sprintf("%s runs on the if node or its chain between parsing a clause and adding it: the clauses it adds come later in the source but earlier in the chain", calleeLabel(c)), app.Pos()
 					}
+				}
+			}
+		}
+		// ... and every clause that was parsed is added: a path that parsed a clause and goes on to hand back the if node
+		// without having added it (an "empty" clause kept out of the tree) lets a later clause win although this
+		// one's condition is truthy
+		for _, p := range paths {
+			if p.end != "return" {
+				continue
+			}
+			failed := false
+			for _, res := range p.results {
+				rv := p.resolve(res)
+				if isNilConst(rv) || isNilConst(p.resolve(stripIface(rv))) {
+					failed = true
+				}
+				if c, isC := rv.(*ssa.Const); isC && c.Value != nil && c.Value.Kind() == constant.Bool && !constant.BoolVal(c.Value) {
+					failed = true
+				}
+			}
+			if failed {
+				continue
+			}
+			added := map[ssa.Value]bool{}
+			var made []*ssa.Call
+			for _, ev := range p.events {
+				c, isCall := ev.(*ssa.Call)
+				if !isCall {
+					continue
+				}
+				if app, isApp := isAppend(c); isApp {
+					for _, a := range app.Call.Args {
+						if es, okE := p.sliceElems(a); okE {
+							for _, e := range es {
+								added[p.resolve(e)] = true
+							}
+						}
+					}
+					continue
+				}
+				if pt, isPtr := c.Type().(*types.Pointer); isPtr && namedIs(pt.Elem(), astPath, "ElseIfExpression") {
+					made = append(made, c)
+				}
+			}
+			for _, mk := range made {
+				if added[ssa.Value(mk)] {
+					continue
+				}
+				// found nil: the clause failed to parse
+				isNil := false
+				for _, d := range p.decisions {
+					if x, op, okN := isNilCompare(p, d.cond); okN && p.resolve(x) == ssa.Value(mk) && d.truth == (op == token.EQL) {
+						isNil = true
+					}
+				}
+				if !isNil {
+					bad, badPos = "a clause that was parsed is not added to the chain on some path that hands the if node back", mk.Pos()
 				}
 			}
 		}
